@@ -1387,11 +1387,18 @@ def html_check(prop, tier, seed):
     op = os.path.join(d, "out.ndjson")
     vlib.run_harness(exe, ["html", "--jobs", jp, "--out", op], timeout=1800 if quick else 7200)
     v = vlib.validate_trace_flat(op, module="TraceHtml.tla", cfg="TraceHtml.cfg", nshards=14, timeout=1800 if quick else 10000, tag="C19")
-    violations, known = [], {}
+    violations, known, xnorm = [], {}, 0
     vlib.buildfail(op, prop, violations, known, prop)
     for rj in v["rejects"]:
         if rj["prop"] == "TOOL":
             raise ToolError(f"generated state rejected as input: {rj['detail']}")
+        if rj["prop"] == "X-NORM":
+            # the normaliser law is behaviour beyond the listed property: noted, never a violation
+            xnorm += 1
+            if xnorm <= 3:
+                ev = json.loads(v["lines"][rj["line"]])
+                log(f"  NOTE beyond-property law (HTML5 serialisation with a normaliser) rejected: ntext={''.join(map(chr, ev['ntext']))[:120]!r} {json.dumps(rj['detail'])[:200]}")
+            continue
         if rj["known"]:
             known.setdefault(rj["known"], 0)
             known[rj["known"]] += 1
@@ -1406,7 +1413,9 @@ def html_check(prop, tier, seed):
     cov = {"states": r_g["distinct"] + r_ns["distinct"] + r_lex["distinct"], "transitions": r_g["generated"] + r_ns["generated"] + r_lex["generated"], "traces_validated_against_impl": len(jobs), "evaluations": len(jobs),
            "distinct_nontrivial": distinct,
            "rule": "one event per (forest, node, parameters): html5() serialisation under catch_unwind, output tokenised by an independent HTML tokenizer, rules judged by TLC; distinct = distinct (forest, node) pairs",
-           "samples": [{"root": jobs[0]["root"], "indent": jobs[0]["indent"], "first_nodes": jobs[0]["st"]["n"][:4]}], "exhaustive": False, "inputs": counts}
+           "samples": [{"root": jobs[0]["root"], "indent": jobs[0]["indent"], "first_nodes": jobs[0]["st"]["n"][:4]}], "exhaustive": False, "inputs": counts,
+           "normaliser_law": {"events_where_NormF_changes_a_value": sum(1 for j in jobs if any(nd["k"] in ("text", "attr") and any(c in (120, 233, 128512, 121) for c in nd["t"]) for nd in j["st"]["n"])),
+                              "rejections_beyond_the_property": xnorm}}
     import shutil
     shutil.rmtree(d, ignore_errors=True)
     return {"violations": violations, "known": known_lines, "coverage": cov,
@@ -1477,7 +1486,8 @@ def random_program(D, rnd):
             if made[t] == 0 and normal(t):
                 cands.append(("create", t, None))
             if made[t] == 0 and not normal(t) and made[nd["p"]]:
-                ab = [c for c in D[nd["p"] - 1]["c"] if not normal(c)]
+                # (each kind in D's order, the two kinds interleaved freely - MCBuild!PrevAbn)
+                ab = [c for c in D[nd["p"] - 1]["c"] if not normal(c) and D[c - 1]["k"] == nd["k"]]
                 k = ab.index(t)
                 if k == 0 or made[ab[k - 1]]:
                     cands.append(("setabn", t, None))
